@@ -546,3 +546,28 @@ theorem renderRoot_eq_blockBody (c : RCtx) (root : List Node) (env : Env) :
     rfl
   | brk e => rfl
   | cont e => rfl
+
+/-- a capture whose body fails, fails the same way -/
+theorem captureM_of_traced_err {α} (m : M α) (env : Env) (ops : List WOp) (e : RawErr)
+    (h : TracedAt m env ops (.err e)) (tw : TW) : captureM m ⟨env, tw⟩ = .fail e := by
+  have h2 := h {}
+  unfold captureM
+  simp only
+  rw [Prog.runPure_bind, h2]
+  rfl
+
+theorem captureM_of_traced_panic {α} (m : M α) (env : Env) (ops : List WOp) (w : String)
+    (h : TracedAt m env ops (.panic w)) (tw : TW) : captureM m ⟨env, tw⟩ = .panic w := by
+  have h2 := h {}
+  unfold captureM
+  simp only
+  rw [Prog.runPure_bind, h2]
+  rfl
+
+theorem captureM_of_traced_unmodelled {α} (m : M α) (env : Env) (ops : List WOp) (w : String)
+    (h : TracedAt m env ops (.unmodelled w)) (tw : TW) : captureM m ⟨env, tw⟩ = .unmodelled w := by
+  have h2 := h {}
+  unfold captureM
+  simp only
+  rw [Prog.runPure_bind, h2]
+  rfl
